@@ -84,7 +84,6 @@ def run_case(c):
         slot *= 2
     stored_dw = slot * BC
     aw = 10
-
     class DUT(Module):
         def __init__(self):
             self.port_from = LiteDRAMNativePort("both", aw, user_dw)
